@@ -10,6 +10,11 @@ type Check func(c *Ctx)
 
 var Checks = map[string]Check{}
 
+// ExtraCommands are additional sub-commands of the binary (e.g. the free-running race pass).
+var ExtraCommands = map[string]func(args []string) int{}
+
+var haveSched = false
+
 // RunCase re-executes one recorded case and returns the violations it produces.
 var Engines = map[string]func(prop string, payload json.RawMessage) ([]Violation, error){}
 
